@@ -77,6 +77,7 @@ def isSide : Out → Bool
   | .reconnect _ _ => true
   | .closed => true
   | .connected _ _ _ => true
+  | .connectFailed _ => true
   | _ => false
 
 def isWanted (c : Str) : Bool := Gen.Conn.requestCapabilities.contains c || c == sSasl
@@ -132,6 +133,9 @@ inductive Move (cfg : Cfg) (K : Kind → Bool) : Abs → Abs → Prop
       Move cfg K a { a with joinQ := true }
   /-- SocketDriver.reconnect closes the current socket -/
   | disc (a : Abs) : Move cfg K a { a with conn := false }
+  /-- SocketDriver.reconnect: the connection attempt to the next server failed -/
+  | connFail (a : Abs) (f : Bool) (h : Str) (hr : cfg.realDriver = true) (hK : K .connPerm = true) :
+      Move cfg K a { a with forced := f, sock := a.sock + 1, conn := false, host := h }
   /-- a CAP ACK leaves `sasl` acknowledged -/
   | ackGain (a : Abs) (hK : K .ackPerm = true) : Move cfg K a { a with ackSasl := true, acked := true }
   /-- CAP DEL removes `sasl` from the acknowledged set -/
@@ -189,6 +193,7 @@ theorem Move.mono {cfg : Cfg} {K K' : Kind → Bool} (hK : ∀ k, K k = true →
   case unsent => exact .unsent _
   case joinQueue h hp => exact .joinQueue _ h (hK _ hp)
   case disc => exact .disc _
+  case connFail f h hr hp => exact .connFail _ f h hr (hK _ hp)
   case ackGain h => exact .ackGain _ (hK _ h)
   case ackLose => exact .ackLose _
   case abort => exact .abort _
